@@ -94,6 +94,13 @@ Theorem C11_init_disjoint K h c a h' r ok b :
   wf h' /\ same_subheap h h' b /\ sep h' r b /\ (forall l, reach h' r l -> (length h <= l)%nat).
 Proof. exact (init_disjoint K h c a h' r ok b). Qed.
 
+(* instantiation only READS the class: creating an instance (immutable or unshared span) leaves the class object, its lists, and
+   every other existing root exactly as they were, at every depth *)
+Theorem C11_init_leaves_class_and_others K s ci a j rj n :
+  roots_ok s -> event_ok (EInit ci a) = true -> nth_error (sroots s) j = Some rj ->
+  view n (sh (run_event K s (EInit ci a))) (VR rj) = view n (sh s) (VR rj).
+Proof. exact (init_leaves_class K s ci a j rj n). Qed.
+
 (* history_independent — for EVERY history (operations on any root, copies by any route at any point, new siblings, class
    mutations): the roots stay pairwise separate, and a root that is not the receiver of an operation keeps its sub-heap *)
 Theorem C11_history_independent K es s :
@@ -274,3 +281,4 @@ Print Assumptions C11_linker_copy_submodels_observationally_equal.
 Print Assumptions C11_path_footprint.
 Print Assumptions C11_siblings_then_any_operations.
 Print Assumptions C11_linker_history_example.
+Print Assumptions C11_init_leaves_class_and_others.
